@@ -48,7 +48,8 @@ def check(src, rep):
                        "the identification pattern lies between the strict and the lenient form of the standard's syntax (DFA inclusion both ways); payload = bytes between the first LF and '!'. "
                        "NOT decided: the composition into 'valid iff ...' over all readouts.")
     init = C.methods["__init__"]
-    pi = [p for p in Engine(M).run(init) if p.status == "run"]
+    E0 = Engine(M, split_ifexp=True)
+    pi = [p for p in E0.run(init) if p.status == "run"]
     rep.require(len(pi) == 1, "DataReadout.__init__ has no unique non-raising path")
     p0 = pi[0]
     writes = {e[2]: e[3] for e in p0.effects if e[0] == "write" and e[1] == SELF}
@@ -59,13 +60,15 @@ def check(src, rep):
     END = next((k for k, v in writes.items() if _is_find(v, stored, BANG)), None)
     DATA = next((k for k, v in writes.items() if v[0] == "op" and v[1] == "Add" and _is_find(v[2], stored, LF) and v[3] == ("c", 1)), None)
     rep.require(END is not None and DATA is not None, f"cannot bind end-position / data-position fields (writes: {sorted(writes)})")
-    CRCF = next((k for k, v in writes.items() if v[0] in ("havoc", "call", "calldyn") or (v[0] == "havoc")), None)
-    crcfn = None
-    for n in ast.walk(init.node):
-        if isinstance(n, ast.Assign) and isinstance(n.value, ast.Call) and isinstance(n.value.func, ast.Attribute) and isinstance(n.value.func.value, ast.Name) and n.value.func.value.id == "self" \
-                and n.value.func.attr in C.methods and isinstance(n.targets[0], ast.Attribute):
-            crcfn, CRCF = C.methods[n.value.func.attr], n.targets[0].attr
-    rep.require(crcfn is not None, "cannot find the CRC helper called from __init__")
+    # the CRC fold: the single loop executed on the constructor's path (in __init__ itself or in a helper it calls, however the window is passed);
+    # the CRC field is the one that receives the value the fold leaves in its accumulator
+    folds = [le for le in E0.loop_entries if isinstance(le[1], ast.For)]
+    seen_nodes = []
+    folds = [le for le in folds if not (le[1] in seen_nodes or seen_nodes.append(le[1]))]
+    rep.require(len(folds) == 1, f"cannot find the CRC fold reached from DataReadout.__init__ ({len(folds)} loops)")
+    crcfn, foldnode, foldfr, foldentry = folds[0]
+    CRCF = next((k for k, v in writes.items() if v[0] == "havoc" and v[2] == foldnode.lineno), None)
+    rep.require(CRCF is not None, "cannot bind the computed-CRC field (no field receives the result of the fold)")
     # ---------------------------------------------------------------- R2: readout starts with '/', end found
     raises = [p for p in Engine(M).run(init) if p.status == "raise"]
     starts_slash = any(g[0] == "cmp" and g[1] == "Eq" and g[2] == ("sub", stored, ("c", 0)) and g[3] == ("c", SLASH) and pol for g, pol, _ in p0.guards)
@@ -75,7 +78,8 @@ def check(src, rep):
     else:
         rep.violation("R2", f"{MOD}.DataReadout.__init__", "constructor-checks", "a DataReadout can be constructed from bytes that do not start with '/' or have no '!'", file, init.node.lineno)
     # ---------------------------------------------------------------- R1 + R2: CRC fold
-    _crc(rep, M, ce, crcfn, RO, END, file)
+    window = E0.ev(foldnode.iter, foldentry.clone(), foldfr)
+    _crc(rep, M, ce, crcfn, RO, END, file, window, stored, foldnode)
     # ---------------------------------------------------------------- R3: is_valid
     _is_valid(rep, M, C, CRCF, RO, DATA, END, file)
     # ---------------------------------------------------------------- R4: expected checksum
@@ -118,24 +122,21 @@ def _is_find(v, stored, ch):
     return isinstance(v, tuple) and v and v[0] == "call" and str(v[1]).endswith(".find") and v[2][-1:] == (("c", ch),) and (len(v[2]) == 1 or v[2][0] in (stored,) or v[2][0][0] == "f0")
 
 
-def _crc(rep, M, ce, fn, RO, END, file):
+def _crc(rep, M, ce, fn, RO, END, file, window_sv, stored, loop):
     at = f"{MOD}.DataReadout.{fn.name}"
     body = [s for s in fn.node.body if not (isinstance(s, ast.Expr) and isinstance(s.value, ast.Constant))]
-    loops = [s for s in body if isinstance(s, ast.For)]
-    if len(loops) != 1:
-        raise Undecided("CRC helper is not a single fold loop")
-    loop = loops[0]
+    if loop not in body:
+        raise Undecided("CRC fold loop is nested inside another statement")
     i = body.index(loop)
     vars = Vars()
     ex = SymExec(M, ce, vars, MOD, CLS)
     env = {}
-    window = None
     pro = []
     for s in body[:i]:
-        if isinstance(s, ast.Assign) and isinstance(s.value, ast.Subscript) and isinstance(s.targets[0], ast.Name):
-            window = (s.targets[0].id, s.value)
-        else:
-            pro.append(s)
+        # statements that only prepare the window (slices / attribute reads) are covered by the window value computed by E-PATH
+        if isinstance(s, ast.Assign) and isinstance(s.targets[0], ast.Name) and not isinstance(s.value, ast.Constant):
+            continue
+        pro.append(s)
     try:
         ex.run_body(pro, env)
     except Top as e:
@@ -150,15 +151,14 @@ def _crc(rep, M, ce, fn, RO, END, file):
     else:
         rep.violation("R1", at, "crc-init", "CRC fold does not start from 0", file, fn.node.lineno)
     # window: for byte in <self._readout[0 : self._end_pos + 1]>
-    it = loop.iter
-    wnode = window[1] if (window and isinstance(it, ast.Name) and it.id == window[0]) else it if isinstance(it, ast.Subscript) else None
+    w = _nolines(window_sv)
+    wtxt = show_sv(window_sv)[:120]
     okw = False
-    wtxt = ast.unparse(wnode) if wnode is not None else ast.unparse(it)
-    if wnode is not None and isinstance(wnode.slice, ast.Slice) and ast.unparse(wnode.value) == f"self.{RO}" and wnode.slice.step is None:
-        lo, hi = wnode.slice.lower, wnode.slice.upper
-        lo_ok = lo is None or (isinstance(lo, ast.Constant) and lo.value == 0)
-        hi_ok = isinstance(hi, ast.BinOp) and isinstance(hi.op, ast.Add) and {ast.unparse(hi.left), ast.unparse(hi.right)} == {f"self.{END}", "1"}
-        okw = lo_ok and hi_ok
+    if w[0] == "slice" and w[1] == _nolines(stored) and w[2] in (None, ("c", 0)) and w[3] is not None and w[3][0] == "op" and w[3][1] == "Add":
+        a, b = w[3][2], w[3][3]
+        if a == ("c", 1):
+            a, b = b, a
+        okw = b == ("c", 1) and _is_find(a, _nolines(stored), BANG)
     if okw:
         rep.ok("R2", "CRC window", f"every byte from '/' (offset 0) through '!' inclusive: {wtxt}")
     else:
@@ -193,7 +193,7 @@ def _crc(rep, M, ce, fn, RO, END, file):
 def _is_valid(rep, M, C, CRCF, RO, DATA, END, file):
     fn = C.methods["is_valid"]
     at = f"{MOD}.DataReadout.is_valid"
-    E = Engine(M, keep_props={"expected_checksum", "identification_line", "end_line"})
+    E = Engine(M, keep_props={"expected_checksum", "identification_line", "end_line"}, split_ifexp=True)
     ps = E.run(fn)
     EXP = lambda g: isinstance(g, tuple) and g[0] == "prop" and g[1] == SELF and g[2] == "expected_checksum"
     CALC = F(CRCF)
@@ -245,9 +245,12 @@ def _is_valid(rep, M, C, CRCF, RO, DATA, END, file):
         bad += 1
         rep.violation("R5", at, "ident-failure-not-false", "a failing identification line (ValueError) does not make is_valid return False", file, fn.node.lineno)
     # data loop: only non-ASCII characters may invalidate
-    loops = [n for n in ast.walk(fn.node) if isinstance(n, ast.For)]
-    for lp in loops:
-        body, _ = loop_paths_at(E, fn, lp)
+    seen_l = []
+    for lfn, lp, lfr, lentry in list(E.loop_entries):
+        if lp in seen_l or not isinstance(lp, ast.For):
+            continue
+        seen_l.append(lp)
+        body, _ = loop_paths_at(E, lfn, lp, lentry, lfr)
         for p in body:
             if p.status == "return" and p.ret == ("c", False):
                 okg = False
